@@ -425,8 +425,33 @@ func H_C11() {
 		// the caller's own context has a deadline too, three times later than the configured timeout
 		cctx, cancel = context.WithTimeout(ctx, timeDur(3*timeout))
 	}
+	var progress chan iface.IPFSLogEntry
+	var consumerDone chan struct{}
+	slowConsumer := withTimeout && vx.Param("PROGRESS", 0) == 1
+	if slowConsumer {
+		// FetchOptions.ProgressChan with a consumer that is busy until after the load's deadline and then drains
+		timeout = 300 * 1000 * 1000
+		progress = make(chan iface.IPFSLogEntry)
+		consumerDone = make(chan struct{})
+		busy, stopBusy := context.WithTimeout(ctx, timeDur(3*timeout))
+		go func() {
+			<-busy.Done()
+			stopBusy()
+			for {
+				select {
+				case <-progress:
+				case <-consumerDone:
+					return
+				}
+			}
+		}()
+		vx.Cover("slow-progress-consumer")
+	}
 	got := entry.FetchAll(cctx, h.api, heads, &iface.FetchOptions{Concurrency: conc, IO: &atomIO{api: h.api}, Timeout: timeDur(timeout),
-		ShouldExclude: func(c cid.Cid) bool { return excluded[c.String()] }})
+		ProgressChan: progress, ShouldExclude: func(c cid.Cid) bool { return excluded[c.String()] }})
+	if consumerDone != nil {
+		close(consumerDone)
+	}
 	vx.ExploreOff()
 	vx.Cover("fetch-returned")
 	if callerDL {
@@ -443,7 +468,7 @@ func H_C11() {
 		}
 	}
 	vx.Assert("C11", okx, "no excluded hash is requested")
-	if hung {
+	if hung || slowConsumer {
 		// a request that never completes holds a fetch slot until the deadline: what is behind the queue at
 		// that moment cannot be loaded in time by any implementation, so only soundness is required here
 		vx.Assert("C11", subset(hashSet(got), want), "only entries reachable through retrievable, non-excluded entries are returned (hung block, timeout)")
